@@ -5,6 +5,7 @@ import Driver.C12
 import Driver.C17
 import Driver.C15
 import Driver.C07
+import Driver.C08
 open Driver
 
 def dispatch (id : String) (toks : List String) (impl : String) : Verdict :=
@@ -15,6 +16,7 @@ def dispatch (id : String) (toks : List String) (impl : String) : Verdict :=
   | "C17" => Driver.C17.handle toks impl
   | "C15" => Driver.C15.handle toks impl
   | "C07" => Driver.C07.handle toks impl
+  | "C08" => Driver.C08.handle toks impl
   | _ => badOp "unknown property"
 
 /-- Split `line` at the first occurrence of " => ". -/
